@@ -20,3 +20,4 @@ run C15_doretry_negative_retries_test.go token/worker 3d832de
 run C04_getkey_dangling_alias_test.go config 25742f7
 run C10_vsix_unverified_timestamp_test.go signers/vsix 9423249
 run C12_binpatch_load_test.go lib/binpatch 7fd31a3
+run c13/merge_clearsign_flush_error_test.go lib/pgptools 286f563
